@@ -12,13 +12,13 @@ from vf import contracts, drivers
 PROPERTY = "C13"
 LEVEL = "exploration"
 SHARDS = {"quick": 4, "thorough": 16}
-REQUIRED = ["mutation-rejects", "emitted-header-hygiene", "cookie-attribute-set", "redirect-location-ascii", "hygiene-contract(icontract)"]
+REQUIRED = ["mutation-rejects", "emitted-header-hygiene", "cookie-attribute-set", "redirect-location-ascii", "redirect-escaped-not-dropped", "hygiene-contract(icontract)"]
 RULE = ("Exhaustive: every string of length <=3 (thorough: <=4 for the mutation paths) over {CR, LF, NUL, ';', ',', '=', '\"', '\\\\', space, TAB, DEL, 0x80, 0xFF, U+0100, 'a'} alone and "
         "embedded in a carrier, used as header value and header name through each of 8 mutation paths (item assignment, append on new/existing "
         "key, update with mapping / pair list / kwargs, setdefault on new/existing key), as cookie name, as cookie value and as redirect target "
         "(str and URL object), each response emitted through both server emulators; plus random op sequences (<=6 mutations) and random longer "
         "strings. Non-trivial = string containing CR, LF, NUL, ';', ',', '=', a quote, backslash or a non-ASCII character; distinct = (string, position).")
-RULE += ' Also: hostile text in the authority part of redirect targets, stored under the header names the library sets itself, cookie name with empty value / delete_cookie, and Cookie attributes assigned after construction (response.cookies[-1].value = ...).'
+RULE += ' Also: the emitted Location, with its percent-escapes undone, is the text asked for (escaped, not dropped); hostile text in the authority part of redirect targets, stored under the header names the library sets itself, cookie name with empty value / delete_cookie, and Cookie attributes assigned after construction (response.cookies[-1].value = ...).'
 ASSUMPTIONS = [
     "constructor-supplied headers and the cookie path/domain attributes are outside the statement's quantifier and are kept clean",
     "a name/value with code points above U+00FF may fail to be emitted (UnicodeEncodeError): nothing is smuggled, so that is tolerated",
@@ -266,6 +266,22 @@ def check_redirect(ctx, target, as_url):
             ctx.violation(f"redirect|{len(locs)}-location-headers|{iface}", case, repr(hdrs))
         elif any(ord(c) <= 0x20 or ord(c) > 0x7e for c in locs[0]):
             ctx.violation(f"redirect|location-not-visible-ascii|{iface}", case, repr(locs[0]))
+        else:
+            # "escaped instead": the characters that cannot be sent are percent-escaped, not dropped or replaced - undoing
+            # the escapes gives back the text the application asked for
+            from urllib.parse import unquote_to_bytes
+            try:
+                if as_url:
+                    from baize.datastructures import URL
+                    asked = str(URL(target)).encode("utf-8")
+                else:
+                    asked = target.encode("utf-8")
+            except UnicodeEncodeError:
+                asked = None
+            if asked is not None:
+                ctx.mon("redirect-escaped-not-dropped")
+                if unquote_to_bytes(locs[0]) != unquote_to_bytes(asked):
+                    ctx.violation(f"redirect|location-names-another-target|{iface}", case, f"{locs[0]!r} for {asked!r}")
         others = [k.lower() for k, v in hdrs]
         if sorted(others) != sorted(set(others)) or set(others) - {"location", "content-length"}:
             ctx.violation(f"redirect|unexpected-extra-headers|{iface}", case, repr(hdrs))
